@@ -51,7 +51,8 @@ def _scaffold(core_items, core_params=None, extra_funcs=(), vars_=(), eps=(), mo
         else:
             entries.pop("keep_K")
     rit = root_items if root_items is not None else []
-    rit = rit + [{"k": "keep", "path": "/u/k", "fn": "K", "args": kargs["args"], "kwargs": kargs["kwargs"]}, {"k": "call", "fn": "S"}]
+    rit = rit + [dict({"k": "keep", "path": "/u/k", "fn": "K", "args": kargs["args"], "kwargs": kargs["kwargs"]},
+                      **{k: True for k in ("starkw", "starargs") if kargs.get(k)}), {"k": "call", "fn": "S"}]
     funcs.append({"name": "root", "module": "main", "params": [], "body": rit})
     spec = {"id": sid, "key": key, "modules": list(modules), "vars": list(vars_), "funcs": funcs, "entries": entries, "eps": list(eps)}
     if ext:
@@ -187,6 +188,14 @@ def unit_arg(kind, ty="int"):
     elif kind == "rt_var":
         vars_ = [{"name": "V0", "module": "main", "values": [a, b]}]
         kargs = {"args": [{"var": "V0"}], "kwargs": []}
+        eps = [{"id": "V0", "kind": "var_value", "n": 2}]
+    elif kind == "rt_var_starkw":
+        vars_ = [{"name": "V0", "module": "main", "values": [a, b]}]
+        kargs = {"args": [{"lit": "7"}], "kwargs": [["y", {"var": "V0"}]], "starkw": True}
+        eps = [{"id": "V0", "kind": "var_value", "n": 2}]
+    elif kind == "rt_var_starargs":
+        vars_ = [{"name": "V0", "module": "main", "values": [a, b]}]
+        kargs = {"args": [{"lit": "7"}, {"var": "V0"}], "kwargs": [], "starargs": True}
         eps = [{"id": "V0", "kind": "var_value", "n": 2}]
     elif kind == "rt_inline":
         extra = [{"name": "h1", "module": "main", "params": [], "body": []}]
@@ -367,7 +376,7 @@ def unit_programs(level="quick"):
     for kind in ("lit_pos", "lit_kw", "lit_pos2", "lit_kw2", "default", "rt_local_const"):
         for ty in LIT:
             out.append(unit_arg(kind, ty))
-    for kind in ("rt_local_helper", "rt_local_helper_twice", "rt_var", "rt_inline", "rt_inline_kw", "rt_multiline", "rt_multiline_keep", "rt_ml2_lit", "rt_ml3_lit"):
+    for kind in ("rt_local_helper", "rt_local_helper_twice", "rt_var", "rt_var_starkw", "rt_var_starargs", "rt_inline", "rt_inline_kw", "rt_multiline", "rt_multiline_keep", "rt_ml2_lit", "rt_ml3_lit"):
         out.append(unit_arg(kind))
     out += [unit_ext("fn"), unit_ext("var")]
     out += [unit_structural(k) for k in ("unrel", "reorder", "cmt_other")]
